@@ -85,6 +85,9 @@ def ty_src(t, defs):
     if k in PY_NAME:
         return q(PY_NAME[k])
     a = t.get('a', [])
+    if k == 'clsobj':
+        # a position whose *values are class objects* (C03): spelled `type`, `Type[Any]` or `Any`
+        return {'type': q('type'), 'Type': '_t.Type[_t.Any]', 'Any': q('Any')}[t.get('sp') or 'type']
     if k == 'optional':
         if t.get('sp') == 'none_first':
             return f'{q("Union")}[None, {ty_src(a[0], defs)}]'
